@@ -1,5 +1,5 @@
-THEOREMS = []
-MODULES = []
+THEOREMS = ["Lbfgsb.C02.evals_in_box", "Lbfgsb.C02.fixed_never_move", "Lbfgsb.C02.clip_lands_in_box"]
+MODULES = ["LbfgsbVerif.Props.C02"]
 MONITORS = ["C02"]
 N_QUICK, N_THOROUGH = 400, 4000
 COMMON = {}
